@@ -28,7 +28,7 @@ Definition code (v : verdict) : nat :=
 class Obs:
     """Observation of one case on one backend."""
     __slots__ = ("backend", "exc", "exc_msg", "exc_at", "columns", "names", "rows", "dtypes",
-                 "ast_coq", "export_exc", "export_exc_msg", "ser_error", "n_markers")
+                 "ast_coq", "export_exc", "export_exc_msg", "ser_error", "n_markers", "meta")
 
     def __init__(self, backend):
         self.backend = backend
@@ -38,6 +38,7 @@ class Obs:
         self.export_exc = self.export_exc_msg = None
         self.ser_error = None
         self.n_markers = 0
+        self.meta = None
 
     def to_json(self):
         return {k: getattr(self, k) for k in self.__slots__ if k != "ast_coq"}
@@ -59,6 +60,20 @@ def observe(case, backend) -> Obs:
     except BaseException as ex:  # noqa: BLE001
         o.columns = None
         o.export_exc, o.export_exc_msg = type(ex).__name__, "columns(): " + str(ex)[:200]
+    try:
+        from pydiverse.transform._internal.pipe.cache import Cache
+        o.meta = {
+            "iter": [c.name for c in tbl],
+            "len": len(tbl),
+            "contains": all((n in tbl) for n in (o.columns or [])),
+            "dir": [n for n in (o.columns or []) if n.isidentifier() and n not in dir(tbl)],
+            "from_ast": list(Cache.from_ast(tbl._ast).name_to_uuid.keys()),
+            "static_dtypes": [str(c.dtype()) for c in tbl],
+        }
+    except (KeyboardInterrupt, SystemExit):
+        raise
+    except BaseException as ex:  # noqa: BLE001
+        o.meta = {"error": f"{type(ex).__name__}: {str(ex)[:200]}"}
     try:
         o.names, o.rows, o.dtypes = export_frame(tbl)
     except (KeyboardInterrupt, SystemExit):
